@@ -85,7 +85,9 @@ _counter = [0]
 
 def new_root(tag="w"):
     _counter[0] += 1
-    root = os.path.join(scratch_base(), "blsim-%d-%s-%d" % (os.getpid(), tag, _counter[0]))
+    # fixed-length name: the length of the root path must not leak into the simulated run (absolute paths in
+    # configuration files and arguments change read sizes)
+    root = os.path.join(scratch_base(), "blsim-%08d-%s-%07d" % (os.getpid(), tag[:1], _counter[0]))
     if os.path.exists(root):
         shutil.rmtree(root, ignore_errors=True)
     os.makedirs(root)
@@ -322,6 +324,7 @@ class RunResult:
         self.signals = []     # (signo, k, before/after)
         self.contended = 0
         self.trace_ok = False
+        self.root = None
 
     def ending(self):
         if self.mode == "exited":
@@ -330,12 +333,24 @@ class RunResult:
             return "seam-kill" if self.seam_kill else "died-sig%d" % self.status
         return "timeout"
 
+    def norm_output(self):
+        """stdout+stderr with the world root and scratch-file names normalised (for the determinism diff)."""
+        t = self.stdout + "\x00" + self.stderr
+        if self.root:
+            t = t.replace(self.root, "@ROOT@")
+        return norm_path(t)
+
     def trace_digest(self):
         h = hashlib.sha256()
         for ev in self.events:
-            if ev[1] in ("INIT",):
+            # CLOSE is issued by a runtime thread that the program's await chain does not order, and the descriptor
+            # number an open returns depends on which closes have already happened: neither is part of the schedule.
+            if ev[1] in ("INIT", "CLOSE"):
                 continue
-            h.update(("\t".join(str(x) for x in (ev[0], ev[1], norm_path(ev[2])) + tuple(ev[3:])) + "\n").encode())
+            rest = list(ev[3:])
+            if ev[1] in ("OPEN_R", "OPEN_W") and not str(rest[2]).startswith("-"):
+                rest[2] = "fd"
+            h.update(("\t".join(str(x) for x in [ev[0], ev[1], norm_path(ev[2])] + rest) + "\n").encode())
         return h.hexdigest()
 
     def fired_counts(self):
@@ -429,6 +444,7 @@ def run_breadlog(root, check=False, plan=None, knobs=None, binary=None):
         argv.append("--check")
     argv += knobs.get("extra_args", [])
     res = RunResult()
+    res.root = root
     t0 = time.monotonic()
     try:
         p = subprocess.Popen(argv, cwd=cwd, env=env, stdin=subprocess.DEVNULL, stdout=subprocess.PIPE,
